@@ -22,16 +22,24 @@ func init() {
 		NonTrivial: func(o *Outcome) bool {
 			return o.Hist.Probes["upstream-request-compared"] > 0 && (o.Hist.Probes["conditional-on-fetching-role"]+o.Hist.Probes["range-request"] > 0)
 		},
-		Rule:         "seeded plans: a server with an /api location (drawn subset of: rewrite /api/*:/$1, added request headers, added query parameters, added response headers, proxy timeout) on upstream u1 (optional Accept-Encoding override) and a catch-all location on upstream u2; clients with arbitrary extra headers, bodies on non-GET methods, queries, If-None-Match / If-Modified-Since (matching and not) and Range, reaching the cache in cold, waiter, hit and hit-for-pass roles (the role is produced by the scheduler). Oracle: the request the origin logged equals the client's request transformed by the reference model; conditionals are withheld exactly on the fetching role; the client gets 304 iff its validators match; a 304 / 206 reply is never replayed to another client. non-trivial = an upstream request was compared and a conditional or range request occurred; distinct = distinct history hash",
-		ExpectProbes: []string{"upstream-request-compared", "conditional-on-fetching-role", "conditional-on-hit", "conditional-on-pass", "range-request", "rewrite-applied", "query-added", "header-added", "accept-encoding-overridden", "304-for-client", "body-forwarded"},
+		Rule:         "seeded plans: a server with an /api location (drawn subset of: rewrite rules of the documented one- and two-wildcard forms, alone or chained, added request headers, added query parameters, added response headers, proxy timeout) on upstream u1 (optional Accept-Encoding override) and a catch-all location on upstream u2; clients with arbitrary extra headers, bodies on non-GET methods, queries, If-None-Match / If-Modified-Since (matching and not) and Range, reaching the cache in cold, waiter, hit and hit-for-pass roles (the role is produced by the scheduler). Oracle: the request the origin logged equals the client's request transformed by the reference model; conditionals are withheld exactly on the fetching role; the client gets 304 iff its validators match; a 304 / 206 reply is never replayed to another client. non-trivial = an upstream request was compared and a conditional or range request occurred; distinct = distinct history hash",
+		ExpectProbes: []string{"upstream-request-compared", "conditional-on-fetching-role", "conditional-on-hit", "conditional-on-pass", "range-request", "rewrite-applied", "rewrite-rules-chained", "non-2xx-with-validators-on-hit", "query-added", "header-added", "accept-encoding-overridden", "304-for-client", "body-forwarded"},
 	})
 }
 
 func genC15(g *Gen) *Plan {
 	p := &Plan{Profile: "C15", Seed: g.Seed, Policy: g.policy(), ClockMenuMs: []int{300, 1000}, ClockWeight: pick(g, 0.0, 0.03), MaxSteps: 3000}
 	la := LocationCfg{Name: "la", Upstream: "u1", Prefixes: []string{"/api"}}
-	if g.p(0.6) {
+	switch g.n(0, 9) {
+	case 0, 1, 2, 3:
 		la.Rewrites = []string{"/api/*:/$1"}
+	case 4:
+		// several rules: each one works on the result of the one before (as in nginx)
+		la.Rewrites = []string{"/api/*:/$1", "/v1/*:/v2/$1"}
+	case 5:
+		la.Rewrites = []string{"/api/v1/*:/api/$1", "/api/*:/$1"}
+	case 6:
+		la.Rewrites = []string{"/api/rest/*/user/*:/$1/$2", "/api/*:/$1"}
 	}
 	if g.p(0.5) {
 		la.ReqHeaders = []string{"X-Added-Req:one"}
@@ -67,7 +75,7 @@ func genC15(g *Gen) *Plan {
 	}
 	var pool []res
 	for i := 0; i < g.n(2, 5); i++ {
-		base := pick(g, "/api/", "/api/v1/", "/web/", "/")
+		base := pick(g, "/api/", "/api/v1/", "/api/v1/", "/api/rest/u7/user/", "/web/", "/")
 		uri := fmt.Sprintf("%sitem%d", base, i)
 		if g.p(0.5) {
 			uri += pick(g, "?b=2&a=1", "?q=x%20y", "?a=1", "?z")
@@ -79,7 +87,9 @@ func genC15(g *Gen) *Plan {
 		lm := "Mon, 02 Jan 2006 15:04:05 GMT"
 		var s []Reply
 		for j := 0; j < 10; j++ {
-			r := Reply{Status: 200, Size: g.n(40, 400), Class: "text", ETag: etag, LastMod: lm}
+			// now and then the resource is answered with a (cacheable) non-2xx status that still
+			// carries validators: conditionals never apply to such an answer
+			r := Reply{Status: pick(g, 200, 200, 200, 200, 200, 200, 200, 404, 410, 301), Size: g.n(40, 400), Class: "text", ETag: etag, LastMod: lm}
 			if g.p(0.2) {
 				r.LastMod = ""
 			}
@@ -149,6 +159,47 @@ func genC15(g *Gen) *Plan {
 		}
 	}
 	return p
+}
+
+// refRewrite: the documented rewrite forms (`/api/*:/$1`, `/rest/*/user/*:/$1/$2`) read as
+// prefix rules - a rule applies when the path starts with its text before the first `*`;
+// `*` stands for the rest of the path (or, with two of them, for what lies before and after
+// the last occurrence of the text between them). Rules apply in order, each to the result of
+// the previous one.
+func refRewrite(rules []string, path string) string {
+	for _, rule := range rules {
+		ft := strings.SplitN(rule, ":", 2)
+		if len(ft) != 2 {
+			continue
+		}
+		segs := strings.Split(ft[0], "*")
+		var caps []string
+		switch len(segs) {
+		case 2:
+			if !strings.HasPrefix(path, segs[0]) || segs[1] != "" {
+				continue
+			}
+			caps = []string{strings.TrimPrefix(path, segs[0])}
+		case 3:
+			if !strings.HasPrefix(path, segs[0]) || segs[2] != "" {
+				continue
+			}
+			rest := strings.TrimPrefix(path, segs[0])
+			i := strings.LastIndex(rest, segs[1])
+			if i < 0 {
+				continue
+			}
+			caps = []string{rest[:i], rest[i+len(segs[1]):]}
+		default:
+			continue
+		}
+		out := ft[1]
+		for i, c := range caps {
+			out = strings.ReplaceAll(out, fmt.Sprintf("$%d", i+1), c)
+		}
+		path = out
+	}
+	return path
 }
 
 func kvPairs(list []string) [][2]string {
@@ -241,9 +292,12 @@ func oracleC15(o *Outcome) []Violation {
 			// path
 			cu, _ := url.ParseRequestURI(r.URI)
 			wantPath := cu.EscapedPath()
-			if len(loc.Rewrites) > 0 && strings.HasPrefix(wantPath, "/api/") {
-				wantPath = "/" + strings.TrimPrefix(wantPath, "/api/")
+			if rw := refRewrite(loc.Rewrites, wantPath); rw != wantPath {
+				wantPath = rw
 				o.Hist.Probes["rewrite-applied"]++
+				if len(loc.Rewrites) > 1 {
+					o.Hist.Probes["rewrite-rules-chained"]++
+				}
 			}
 			if call.Path != wantPath {
 				bad("wrong-path", "path differs from the configured rewrite of the client's path", "origin saw path %q, expected %q", call.Path, wantPath)
@@ -325,6 +379,9 @@ func oracleC15(o *Outcome) []Violation {
 					bad("wrong-request-headers", "request headers differ from client's plus configured ones", "header %s: origin saw %q, expected %q", k, call.Header[k], want[k])
 				}
 			}
+		}
+		if v.Kind == "origin" && len(v.OwnUps) == 0 && (inm != "" || ims != "") && v.Up.Call.status/100 != 2 {
+			o.Hist.Probes["non-2xx-with-validators-on-hit"]++
 		}
 		// the client's own validators
 		if v.Kind == "origin" && (r.Method == "GET" || r.Method == "HEAD") && v.Up.Call.status == 200 {
